@@ -171,8 +171,19 @@ class C09(Prop):
                               and x["thread"] == c["thread"] and x["i"] == c["i"]]
                         if c0 and c0[0] <= e["step"] and c["step"] >= b:
                             racing = "/racing-user-shutdown"
+                t0 = [c["now"] for c in res.obs.events if c["op"] == "reusable" and c["phase"] == "call"
+                      and c["thread"] == e["thread"] and c["i"] == e["i"]]
+                t0 = t0[0] if t0 else 0.0
                 if not racing and any(b <= f[6] <= e["step"] for f in X.injected_kills(res)):
                     racing = "/racing-break"
+                if not racing:
+                    # a worker of the root that ended abruptly (task-induced crash) while the call was running, or
+                    # whose death had not been handled yet when the call began
+                    for p in X.worker_procs(res):
+                        if p.status is not None and p.status != ("exit", 0) and p.death is not None \
+                                and t0 - 1e-9 <= p.death <= e["now"] + 1e-9:
+                            racing = "/racing-break"
+                            break
                 out.append(V(pid, "C09/get-reusable-executor-raised/%s%s" % (e["r"]["e"]["type"], racing),
                              "kw=%r: %s" % (e["o"]["kw"], e["r"]["e"]["msg"][:200])))
         # every thread's tasks complete with their values (deaths make BrokenProcessPool legal)
